@@ -421,6 +421,20 @@ def opGenWalk : M String := do
   let (f, rr, b, L, K) := r
   return s!"{f.length} | " ++ joinF f ++ " | " ++ joinF rr ++ " | " ++ joinF b ++ " | " ++ " ".intercalate (L.map toString) ++ " | " ++ " ".intercalate (K.map toString)
 
+/-- generated binary search over Jdes, the scheduler being the generated walk: `genjdes <ltf|new|vec> cfg target` -/
+def opGenJdes : M String := do
+  let which ← tok
+  let c ← cfg
+  let target ← int
+  let fuel := c.N + 8
+  let nfOf : Int → Int := fun J =>
+    if which == "ltf" then ((Gen.ltf_plan_walk (c.N : Int) c.fs c.olap c.bmin (c.Lmin : Int) J (c.Kdes : Int) fuel).1.length : Int)
+    else if which == "new" then ((Gen.new_ltf_plan_walk (c.N : Int) c.fs c.olap c.bmin (c.Lmin : Int) J (c.Kdes : Int) fuel).1.length : Int)
+    else ((Gen.vectorized_ltf_plan_walk (c.N : Int) c.fs c.olap c.bmin (c.Lmin : Int) J (c.Kdes : Int) fuel).1.length : Int)
+  match Gen.find_Jdes_binary_search nfOf target 64 with
+  | some J => return s!"some {J}"
+  | none => return "none"
+
 def opGenUtil : M String := do
   let which ← tok
   let v ← flt
@@ -479,6 +493,7 @@ def dispatch : M String := do
   | "kaiser" => opKaiser
   | "singlebin" => opSingleBin
   | "genwalk" => opGenWalk
+  | "genjdes" => opGenJdes
   | "gencascade" => opGenCascade
   | "gencoeffs" => opGenCoeffs
   | "genutil" => opGenUtil
